@@ -1,7 +1,403 @@
-//! (stub) driver module - see tools/HOWTO.md
-use crate::util::Args;
+//! C12 - default (colour-optimised) saving never changes the rendered picture.
+//!
+//! Every document is built as a real `Buffer` (1..=4 Normal-mode layers, alpha / offset / hidden, a font table whose
+//! slots all hold fonts, a palette with extended entries), optimised with `ColorOptimizer::new(buf, opts).optimize(buf)`
+//! for both settings of `normalize_whitespaces`, and both buffers are rendered with `Buffer::render_to_rgba`.
+//! Events (validated by spec/doc/Trace_ColorOpt.tla):
+//!   reset{fonts,pal,names}   font table (glyph bitmaps) and palette shared by the following documents
+//!   opt{..}                  one optimiser run: per cell <<original composited, optimised stored, optimised shown>>,
+//!                            sizes, image comparison (equal? first differing pixel)
+//!   panic{site}              the optimiser or the renderer panicked
+//! Document families: "sweep" (every glyph of one font), "classes" (TLC witnesses <carried colours, glyph class, cell
+//! colours, bold> instantiated with real glyphs of one font), "multi" (seeded random multi-layer, multi-font documents).
+use crate::util::{guard, panic_site, rng, Args, Out};
+use icy_engine::{AttributedChar, BitFont, Buffer, Color, ColorOptimizer, Layer, Line, SaveOptions, TextAttribute, TextPane, SAUCE_FONT_NAMES};
+use rand::rngs::StdRng;
+use rand::seq::SliceRandom;
+use rand::Rng;
+use serde_json::{json, Value};
 
-pub fn c12(_a: &Args) {
-    eprintln!("c12: driver not built yet");
-    std::process::exit(2);
+fn col_out(c: u32) -> i64 {
+    if c & 0x8000_0000 != 0 { -((c & 0x7FFF_FFFF) as i64) - 1 } else { c as i64 }
+}
+fn cell_json(c: AttributedChar) -> Value {
+    json!([c.ch as u32, col_out(c.attribute.get_foreground()), col_out(c.attribute.get_background()), c.attribute.attr, c.attribute.get_font_page()])
+}
+
+struct FontInfo {
+    name: String,
+    font: BitFont,
+    blanks: Vec<u32>,     // no pixel set
+    solids: Vec<u32>,     // every pixel of the font's own box set
+    near_solid: Vec<u32>, // the glyphs with the most set pixels that are not solid
+    near_blank: Vec<u32>, // the glyphs with the fewest set pixels that are not blank
+    mixed: Vec<u32>,      // everything else
+}
+
+fn ones(font: &BitFont, ch: u32) -> Option<u32> {
+    font.get_glyph(char::from_u32(ch)?).map(|g| g.data.iter().map(|b| b.count_ones()).sum())
+}
+
+fn font_info(name: String, font: BitFont) -> FontInfo {
+    let full = (font.size.width * font.size.height) as u32;
+    let mut counts: Vec<(u32, u32)> = (0..font.length.max(0) as u32).filter_map(|c| ones(&font, c).map(|n| (c, n))).collect();
+    let blanks: Vec<u32> = counts.iter().filter(|x| x.1 == 0).map(|x| x.0).collect();
+    let solids: Vec<u32> = counts.iter().filter(|x| x.1 == full).map(|x| x.0).collect();
+    counts.retain(|x| x.1 != 0 && x.1 != full);
+    counts.sort_by_key(|x| (x.1, x.0));
+    let near_blank: Vec<u32> = counts.iter().take(4).map(|x| x.0).collect();
+    let near_solid: Vec<u32> = counts.iter().rev().take(6).map(|x| x.0).collect();
+    let mixed: Vec<u32> = counts.iter().map(|x| x.0).filter(|c| !near_blank.contains(c) && !near_solid.contains(c)).collect();
+    FontInfo { name, font, blanks, solids, near_solid, near_blank, mixed }
+}
+
+fn all_fonts() -> Vec<FontInfo> {
+    let mut v = Vec::new();
+    for p in 0..=42usize {
+        match BitFont::from_ansi_font_page(p) {
+            Ok(f) => v.push(font_info(format!("page{p}"), f)),
+            Err(e) => {
+                eprintln!("c12: built-in font page {p} does not load: {e}");
+                std::process::exit(2);
+            }
+        }
+    }
+    for n in SAUCE_FONT_NAMES {
+        match BitFont::from_sauce_name(n) {
+            Ok(f) => v.push(font_info(format!("sauce:{n}"), f)),
+            Err(e) => {
+                eprintln!("c12: SAUCE font {n} does not load: {e}");
+                std::process::exit(2);
+            }
+        }
+    }
+    v
+}
+
+fn font_json(f: &BitFont) -> Value {
+    let g: Vec<Value> = (0..f.length.max(0) as u32).map(|c| match char::from_u32(c).and_then(|ch| f.get_glyph(ch)) { Some(g) => json!(g.data), None => json!([]) }).collect();
+    json!({"w": f.size.width, "h": f.size.height, "g": g})
+}
+
+/// A user font derived from a built-in one: the densest glyph becomes "all but one pixel", the sparsest "exactly one pixel",
+/// character 219 becomes solid.  Character 32 and the other blank glyphs are left alone.  (Documents with their own fonts
+/// are ordinary - XBin and IcyDraw files embed them; no built-in font has a glyph within 12 pixels of solid.)
+fn derive(fi: &FontInfo, r: &mut StdRng) -> FontInfo {
+    let mut font = fi.font.clone();
+    let (w, h) = (font.size.width.min(8) as u32, font.size.height as usize);
+    let row_full: u8 = if w >= 8 { 0xFF } else { !(0xFFu8 >> w) };
+    let dense = *fi.near_solid.first().unwrap_or(&1);
+    let sparse = *fi.near_blank.first().unwrap_or(&2);
+    if let Some(g) = font.get_glyph_mut(ch(219)) {
+        g.data = vec![row_full; h];
+    }
+    if dense != 219 {
+        if let Some(g) = font.get_glyph_mut(ch(dense)) {
+            g.data = vec![row_full; h];
+            let (y, x) = (r.gen_range(0..h), r.gen_range(0..w));
+            g.data[y] &= !(128u8 >> x);
+        }
+    }
+    if sparse != 219 && sparse != dense && sparse != 32 {
+        if let Some(g) = font.get_glyph_mut(ch(sparse)) {
+            g.data = vec![0; h];
+            let (y, x) = (r.gen_range(0..h), r.gen_range(0..w));
+            g.data[y] |= 128u8 >> x;
+        }
+    }
+    font_info(format!("derived:{}", fi.name), font)
+}
+
+/// Palette: the 16 DOS colours plus extended entries (how the engine stores RGB colours coming from SGR 38/48;2).
+const EXT: [(u8, u8, u8); 6] = [(255, 128, 0), (1, 2, 3), (0, 0, 171), (254, 254, 254), (90, 17, 203), (0, 0, 0)];
+
+struct Table<'a> {
+    slots: Vec<(usize, &'a FontInfo)>,
+}
+impl Table<'_> {
+    fn user_font(&self) -> bool {
+        self.slots.iter().any(|(_, f)| f.name.starts_with("derived:"))
+    }
+}
+
+fn new_buffer(size: (i32, i32), table: &Table) -> Buffer {
+    let mut buf = Buffer::new(size);
+    buf.is_terminal_buffer = false;
+    for (r, g, b) in EXT {
+        buf.palette.push(Color::new(r, g, b));
+    }
+    buf.clear_font_table();
+    for (slot, fi) in &table.slots {
+        buf.set_font(*slot, fi.font.clone());
+    }
+    buf.layers.clear();
+    buf
+}
+
+fn emit_table(out: &mut Out, table: &Table, family: &str) {
+    let mut fonts = serde_json::Map::new();
+    for (slot, fi) in &table.slots {
+        fonts.insert(slot.to_string(), font_json(&fi.font));
+    }
+    let probe = new_buffer((1, 1), table);
+    let pal: Vec<Value> = (0..probe.palette.len()).map(|i| { let (r, g, b) = probe.palette.get_rgb(i as u32); json!([r, g, b]) }).collect();
+    let names: Vec<Value> = table.slots.iter().map(|(s, fi)| json!([s, fi.name])).collect();
+    out.ev(&json!({"ev":"reset","family":family,"fonts":fonts,"pal":pal,"names":names}));
+}
+
+fn rnd_color(r: &mut StdRng, background: bool) -> u32 {
+    match r.gen_range(0..100) {
+        0..=34 => if background && r.gen_bool(0.4) { 0 } else { r.gen_range(0..8) },
+        35..=59 => r.gen_range(8..16),
+        60..=79 => 16 + r.gen_range(0..EXT.len() as u32),
+        _ => {
+            // directly encoded RGB (bit 31); never 0,0,0 which is TextAttribute::TRANSPARENT_COLOR
+            let rgb = r.gen_range(1..0x0100_0000u32);
+            0x8000_0000 | rgb
+        }
+    }
+}
+
+fn rnd_attr(r: &mut StdRng, slot: usize) -> TextAttribute {
+    let mut at = TextAttribute::new(rnd_color(r, false), rnd_color(r, true));
+    at.attr = match r.gen_range(0..10) { 0..=2 => 1, 3 => 8, 4 => 16 | 1, _ => 0 };
+    at.set_font_page(slot);
+    at
+}
+
+fn pick(r: &mut StdRng, v: &[u32]) -> Option<u32> {
+    if v.is_empty() { None } else { Some(v[r.gen_range(0..v.len())]) }
+}
+
+fn rnd_glyph(r: &mut StdRng, fi: &FontInfo) -> u32 {
+    let any = |r: &mut StdRng| r.gen_range(0..fi.font.length.max(1) as u32);
+    match r.gen_range(0..100) {
+        0..=24 => pick(r, &fi.blanks).unwrap_or_else(|| any(r)),
+        25..=44 => pick(r, &fi.solids).unwrap_or_else(|| any(r)),
+        45..=59 => pick(r, &fi.near_solid).unwrap_or_else(|| any(r)),
+        60..=67 => pick(r, &fi.near_blank).unwrap_or_else(|| any(r)),
+        _ => any(r),
+    }
+}
+
+fn ch(c: u32) -> char {
+    char::from_u32(c).unwrap_or(' ')
+}
+
+fn full_layer(size: (i32, i32), cells: &[AttributedChar]) -> Layer {
+    let mut l = Layer::new("l", size);
+    l.lines = (0..size.1).map(|y| Line { chars: (0..size.0).map(|x| cells.get((y * size.0 + x) as usize).copied().unwrap_or_else(AttributedChar::invisible)).collect() }).collect();
+    l
+}
+
+/// One optimiser run per setting of normalize_whitespaces; records cells, sizes and the image comparison.
+fn run_doc(out: &mut Out, buf: &Buffer, family: &str, user_font: bool, doc: usize, stats: &mut Stats) {
+    for norm in [false, true] {
+        let mut opts = SaveOptions::default();
+        opts.normalize_whitespaces = norm;
+        let r = guard(|| {
+            let o = ColorOptimizer::new(buf, &opts).optimize(buf);
+            let (s1, p1) = buf.render_to_rgba(buf.get_rectangle());
+            let (s2, p2) = o.render_to_rgba(o.get_rectangle());
+            (o, s1, p1, s2, p2)
+        });
+        match r {
+            Err(p) => out.ev(&json!({"ev":"panic","family":family,"userfont":user_font as u8,"doc":doc,"norm":norm as u8,"site":panic_site(&p),"msg":p.msg})),
+            Ok((o, s1, p1, s2, p2)) => {
+                let (w, h) = (buf.get_width(), buf.get_height());
+                let fs = buf.get_font(0).map(|f| f.size).unwrap_or_default();
+                let mut first_diff = json!([]);
+                let img_eq = s1 == s2 && p1 == p2;
+                if !img_eq && s1 == s2 {
+                    if let Some(i) = p1.iter().zip(p2.iter()).position(|(a, b)| a != b) {
+                        let px = (i / 4) as i32 % s1.width;
+                        let py = (i / 4) as i32 / s1.width;
+                        first_diff = json!([px, py, px / fs.width.max(1), py / fs.height.max(1)]);
+                    }
+                }
+                let mut cells = Vec::with_capacity((w * h) as usize);
+                let single = o.layers.len() == 1;
+                for y in 0..h {
+                    for x in 0..w {
+                        let orig = buf.get_char((x, y));
+                        let shown = o.get_char((x, y));
+                        let raw = if single { o.layers[0].get_char((x, y)) } else { shown };
+                        let (oj, rj, sj) = (cell_json(orig), cell_json(raw), cell_json(shown));
+                        if rj != oj { stats.changed += 1; }
+                        if rj == sj { cells.push(json!([oj, rj])); } else { cells.push(json!([oj, rj, sj])); }
+                    }
+                }
+                stats.cells += (w * h) as usize;
+                out.ev(&json!({"ev":"opt","family":family,"userfont":user_font as u8,"doc":doc,"norm":norm as u8,"layers":buf.layers.len(),"size":[w,h],"osize":[o.get_width(),o.get_height()],
+                    "olayers":o.layers.len(),"dims":[[s1.width,s1.height],[s2.width,s2.height]],"img_eq":img_eq as u8,"first_diff":first_diff,"cells":cells}));
+            }
+        }
+    }
+}
+
+#[derive(Default)]
+struct Stats {
+    cells: usize,
+    changed: usize,
+}
+
+/// Concrete colour for a colour of the scaled-down model (MC_ColorOpt.Colors), consistently within one witness.
+fn model_color(c: i64, low: u32, ext: u32, rgb: u32) -> u32 {
+    match c {
+        0 => 0,
+        1 => low,
+        7 => 7,
+        9 => low + 8,
+        16 => 16 + ext,
+        _ => 0x8000_0000 | rgb,
+    }
+}
+
+pub fn c12(a: &Args) {
+    let mut out = Out::create(&a.str("out", "work/C12/trace.ndjson"));
+    let seed = a.u64("seed", 0);
+    let thorough = a.str("tier", "quick") == "thorough";
+    let mut fonts = all_fonts();
+    let n_builtin = fonts.len();
+    // user fonts derived from built-in ones (font 0, an 8x8 font, others rotating with the seed)
+    let n_derived = if thorough { 12 } else { 4 };
+    for i in 0..n_derived {
+        let base = match i { 0 => 0, 1 => 32, _ => (seed as usize * 5 + i * 13) % n_builtin };
+        let mut r = rng(seed, 119_000 + i as u64);
+        let d = derive(&fonts[base], &mut r);
+        fonts.push(d);
+    }
+    let mut stats = Stats::default();
+    let mut doc = 0usize;
+
+    // facts about the built-in fonts the property depends on (reported once, on stderr)
+    let bad_space: Vec<&str> = fonts.iter().filter(|f| ones(&f.font, 32).map(|n| n != 0).unwrap_or(false)).map(|f| f.name.as_str()).collect();
+    let no_solid = fonts.iter().filter(|f| f.solids.is_empty()).count();
+    eprintln!("c12: {} fonts ({n_builtin} built-in); fonts whose character 32 is not blank: {:?}; fonts without a solid glyph: {}", fonts.len(), bad_space, no_solid);
+
+    // (1) sweep: every glyph of every built-in font page 0..=42 and every SAUCE font, shuffled, random attributes
+    let sweeps = if thorough { 3 } else { 1 };
+    for (fi_idx, fi) in fonts.iter().enumerate() {
+        let table = Table { slots: vec![(0, fi)] };
+        emit_table(&mut out, &table, "sweep");
+        for s in 0..sweeps {
+            let mut r = rng(seed, 120_000 + (fi_idx * 10 + s) as u64);
+            let n = fi.font.length.max(1) as u32;
+            let mut glyphs: Vec<u32> = (0..n).chain(0..n).collect();
+            glyphs.shuffle(&mut r);
+            let w = 32;
+            let h = (glyphs.len() as i32 + w - 1) / w;
+            let cells: Vec<AttributedChar> = glyphs.iter().map(|g| AttributedChar::new(ch(*g), rnd_attr(&mut r, 0))).collect();
+            let mut buf = new_buffer((w, h), &table);
+            buf.layers.push(full_layer((w, h), &cells));
+            doc += 1;
+            run_doc(&mut out, &buf, "sweep", table.user_font(), doc, &mut stats);
+        }
+    }
+
+    // (2) classes: TLC witnesses {prev:[fg,bg], g:class, fg, bg, bold} as <setter cell, tested cell> pairs
+    let mut wit: Vec<Value> = Vec::new();
+    let gen = a.str("gen", "");
+    if !gen.is_empty() {
+        match std::fs::read_to_string(&gen) {
+            Ok(t) => wit = t.lines().filter_map(|l| serde_json::from_str(l).ok()).collect(),
+            Err(_) => {
+                eprintln!("c12: cannot read {gen}");
+                std::process::exit(2);
+            }
+        }
+    }
+    let n_class_fonts = if thorough { 16 } else { 5 };
+    // font 0 (CP437), an 8x8 font, then fonts rotating with the seed
+    let mut class_fonts: Vec<usize> = vec![0, 32, n_builtin, n_builtin + 1];
+    let mut k = seed as usize * 7 + 1;
+    while class_fonts.len() < n_class_fonts {
+        k = (k + 11) % fonts.len();
+        if !class_fonts.contains(&k) {
+            class_fonts.push(k);
+        }
+    }
+    let mut n_wit = 0;
+    for (ci, &fidx) in class_fonts.iter().enumerate() {
+        let fi = &fonts[fidx];
+        let table = Table { slots: vec![(0, fi)] };
+        emit_table(&mut out, &table, "classes");
+        let mut r = rng(seed, 121_000 + ci as u64);
+        let mut cells: Vec<AttributedChar> = Vec::new();
+        for w in &wit {
+            let class = w["g"].as_str().unwrap_or("mixed");
+            let pool: &[u32] = match class { "blank" => &fi.blanks, "blank32" => &[32], "solid" => &fi.solids, "nearsolid" => &fi.near_solid, "nearblank" => &fi.near_blank, _ => &fi.mixed };
+            let pool: Vec<u32> = if class == "blank" { pool.iter().copied().filter(|c| *c != 32).collect() } else { pool.to_vec() };
+            let Some(g) = pick(&mut r, &pool) else { continue };
+            if class == "blank32" && !fi.blanks.contains(&32) {
+                continue;
+            }
+            let (low, ext, rgb) = (r.gen_range(1..8), r.gen_range(0..EXT.len() as u32), r.gen_range(1..0x0100_0000u32));
+            let mc = |c: &Value| model_color(c.as_i64().unwrap_or(0), low, ext, rgb);
+            let setter_glyph = pick(&mut r, &fi.mixed).unwrap_or(65);
+            let mut sat = TextAttribute::new(mc(&w["prev"][0]), mc(&w["prev"][1]));
+            sat.set_font_page(0);
+            cells.push(AttributedChar::new(ch(setter_glyph), sat));
+            let mut at = TextAttribute::new(mc(&w["fg"]), mc(&w["bg"]));
+            at.attr = w["bold"].as_u64().unwrap_or(0) as u16;
+            at.set_font_page(0);
+            cells.push(AttributedChar::new(ch(g), at));
+            n_wit += 1;
+        }
+        let (w, rows_per_doc) = (80, 25);
+        for chunk in cells.chunks((w * rows_per_doc) as usize) {
+            let h = (chunk.len() as i32 + w - 1) / w;
+            let mut buf = new_buffer((w, h), &table);
+            buf.layers.push(full_layer((w, h), chunk));
+            doc += 1;
+            run_doc(&mut out, &buf, "classes", table.user_font(), doc, &mut stats);
+        }
+    }
+    eprintln!("c12: {} TLC witnesses x {} fonts instantiated ({} pairs)", wit.len(), class_fonts.len(), n_wit);
+
+    // (3) multi: random documents of 1..=4 layers (alpha, offset, hidden) over font tables of 1..=3 slots
+    let n_tables = if thorough { 120 } else { 8 };
+    let docs_per_table = if thorough { 30 } else { 10 };
+    for t in 0..n_tables {
+        let mut r = rng(seed, 122_000 + t as u64);
+        // slot 0 decides the cell box; mix sizes (8x16 with 8x8 / 8x14 / 8x19 fonts) on purpose
+        let nslots = r.gen_range(1..=3);
+        let mut slots: Vec<(usize, &FontInfo)> = Vec::new();
+        for s in 0..nslots {
+            let fi = &fonts[r.gen_range(0..fonts.len())];
+            let slot = if s == 0 { 0 } else { *[1usize, 2, 5, 17, 42].choose(&mut r).unwrap() + s };
+            slots.push((slot, fi));
+        }
+        let table = Table { slots };
+        emit_table(&mut out, &table, "multi");
+        for _ in 0..docs_per_table {
+            let (w, h) = (r.gen_range(1..=40), r.gen_range(1..=12));
+            let mut buf = new_buffer((w, h), &table);
+            let nl = r.gen_range(1..=4);
+            for li in 0..nl {
+                let base = li == 0 && r.gen_bool(0.7);
+                let (lw, lh) = if base { (w, h) } else { (r.gen_range(1..=w + 3), r.gen_range(1..=h + 2)) };
+                let mut layer = Layer::new(format!("l{li}"), (lw, lh));
+                let density = if base { *[0.6, 0.9, 1.0].choose(&mut r).unwrap() } else { *[0.1, 0.4, 0.8, 1.0].choose(&mut r).unwrap() };
+                layer.lines = (0..lh).map(|_| Line { chars: (0..lw).map(|_| {
+                    if r.gen_bool(density) {
+                        let (slot, fi) = table.slots[r.gen_range(0..table.slots.len())];
+                        AttributedChar::new(ch(rnd_glyph(&mut r, fi)), rnd_attr(&mut r, slot))
+                    } else {
+                        AttributedChar::invisible()
+                    }
+                }).collect() }).collect();
+                layer.properties.has_alpha_channel = !base && r.gen_bool(0.7);
+                if !base {
+                    layer.set_offset((r.gen_range(-3..=5), r.gen_range(-2..=4)));
+                }
+                layer.properties.is_visible = base || r.gen_bool(0.8);
+                buf.layers.push(layer);
+            }
+            doc += 1;
+            run_doc(&mut out, &buf, "multi", table.user_font(), doc, &mut stats);
+        }
+    }
+    out.flush();
+    eprintln!("c12: {doc} documents, {} events, {} cells, {} rewritten by the optimiser", out.n, stats.cells, stats.changed);
 }
